@@ -562,7 +562,7 @@ def check_c03(rep):
     rep.statement += ('  END TO END on small inputs: the whole of build() (RegExp::from and the printer, from MIR) with conversion options on 1-2 '
                       'test cases of 1-2 printable ASCII characters: the printed pattern, parsed back, accepts a string x -- every scalar value at '
                       'every position, every length -- if and only if x arises from some test case by the documented per-character generalisation '
-                      '(%s).' % ('6 flag sets' if rep.tier == 'quick' else 'all 63 non-empty flag sets for one test case of one character; 15 more for larger inputs'))
+                      '(%s).' % ('7 flag sets on 1-3 characters plus every pair of options for two one-character test cases' if rep.tier == 'quick' else 'all 63 non-empty flag sets for one and for two test cases of one character; 15 more for larger inputs'))
     rep.outside = ['strings of more than %d code points through the enclosing closure' % (2 if rep.tier == 'quick' else 3),
                    'end to end: test cases outside printable ASCII, more or longer test cases than the bound', 'combination with other options']
     env = Env(rep)
@@ -2396,7 +2396,8 @@ def check_c01(rep):
                      'of 2/1 characters from 0-9 a-z (A-Z), blank, underscore and each of %s combinations of the 13 settings (class conversions, repetitions, '
                      'case-insensitive matching, capturing groups, escaping, verbose mode, anchors), build() from MIR does not panic, prints the requested flag group '
                      'and anchors and only groups of the requested kind, the text is in the syntax subset read by the pattern parser, and every test case is '
-                     'found in full (leftmost-first search; with (?i) up to simple case folding).' % ('25' if rep.tier == 'quick' else '260'))
+                     'in the language of the pattern, i.e. matched in full with the anchors in place (with (?i) up to simple case folding; which match a SEARCH returns when an '
+                     'anchor is disabled is C08\'s clause).' % ('25' if rep.tier == 'quick' else '260'))
     rep.outside = ['the regex crate\'s own parser (replays use it; the deciding step reads the syntax subset grex prints)',
                    'code points outside the stated domains; more or longer test cases than the bound', 'surrogate escaping and syntax highlighting (excluded by the property)']
     rep.assumptions += ['same models as C02']
@@ -2441,7 +2442,14 @@ def replay_settings(env, cases, settings):
     if pat is None:
         return True, 'build(%s, %s) panics: %s' % ([''.join(map(chr, c)) for c in cases], ','.join(settings), str(got[0])[:160]), {}
     txt = ''.join(map(chr, pat))
-    found = env.eval([{'op': 'regex_find', 'pattern': pat, 'text': c} for c in cases])
+    want_head = '(?ix)' if ('ignore_case' in settings and 'verbose' in settings) else '(?i)' if 'ignore_case' in settings else '(?x)' if 'verbose' in settings else ''
+    # full match "with its anchors in place": the anchors the settings removed are put back around the body (search order is C08's clause)
+    inner = txt[len(want_head):] if txt.startswith(want_head) else txt
+    stripped = inner.strip()
+    core = stripped[1:] if stripped.startswith('^') else stripped
+    core = core[:-1] if (core.endswith('$') and not core.endswith('\\$')) else core
+    anchored = [ord(ch) for ch in (want_head + '^(?:' + core + ')$')]
+    found = env.eval([{'op': 'regex_find', 'pattern': anchored, 'text': c} for c in cases] + [{'op': 'regex_find', 'pattern': pat, 'text': cases[0]}])
     problems = []
     if any('compile_error' in str(r) for r in found):
         problems.append('does not compile')
@@ -2449,8 +2457,7 @@ def replay_settings(env, cases, settings):
         for c, r in zip(cases, found):
             sp = r.get('ok')
             if not (isinstance(sp, list) and sp[0] == 0 and sp[1] == sp[2]):
-                problems.append('searching %s finds %s' % (json.dumps(''.join(map(chr, c))), 'nothing' if sp is None else 'bytes %d..%d of %d' % tuple(sp)))
-    want_head = '(?ix)' if ('ignore_case' in settings and 'verbose' in settings) else '(?i)' if 'ignore_case' in settings else '(?x)' if 'verbose' in settings else ''
+                problems.append('%s is not matched in full' % json.dumps(''.join(map(chr, c))))
     if not txt.startswith(want_head) or (not want_head and txt.startswith('(?') and not txt.startswith('(?:')):
         problems.append('flag group is not %r' % want_head)
     body = txt[len(want_head):].strip()
